@@ -401,6 +401,10 @@ def run(prog: Program, res: Result) -> None:  # noqa: PLR0912, PLR0915
     from checks.shared import check_arguments_before_bindings
 
     check_arguments_before_bindings(prog, res, "C10.R5")
+    res.rule("C10.R6", "the template-globals layer of the lookup order is the current caller's: on a cache hit the cached template's global_data is rebound, on every path, from the caller's globals alone (no fallback to what the cached object already holds) - otherwise a name resolves to an earlier caller's template global instead of falling through to the built-ins, a counter or undefined (shared with C14.R2 / C09.R2b)")
+    from checks.shared import check_cache_hit_rebinds
+
+    check_cache_hit_rebinds(prog, res, "C10.R6")
 
 
 def _param_or_empty_default(e: ast.AST, param: str) -> bool:
